@@ -248,7 +248,7 @@ def run_impl(case: dict) -> str:
             a = Duration(months=m1, seconds=Decimal(s1) / 10 ** 6)
             b = Duration(months=m2, seconds=Decimal(s2) / 10 ** 6)
             return ''.join('1' if f(a, b) else '0' for f in (operator.lt, operator.le, operator.gt, operator.ge))
-        a = case['a']
+        a = case.get('a')
         if op == 'todelta':
             td = build(ck, a).todelta()
             return str((td.days * 86400 + td.seconds) * 10 ** 6 + td.microseconds)
@@ -340,7 +340,7 @@ def parse_answer(ans: str):
 
 # ------------------------------------------------------------------------------ generator
 BOUNDARY_YEARS = [1, 2, 3, 4, 5, 8, 99, 100, 101, 399, 400, 401, 1582, 1600, 1900, 2000, 2024, 9996, 9998, 9999,
-                  10000, 10001, 10003, 10004, 10100, 12000, 99999, 400000, 2 ** 31 - 1, 2 ** 31]
+                  10000, 10001, 10003, 10004, 10100, 12000, 99999, 400000]
 TD_EDGE_YEARS = [2737906, 2737907, 2737908, 2737909, 2737910, 3000000]   # 999999999 days ≈ year 2737908
 TZS = [None, None, 0, 840, -840, 330, -300, 60, -1, 839]
 TIMES = [0, 0, 1, 999999, 10 ** 6, 45015 * 10 ** 6, 45015 * 10 ** 6 + 123456, US - 10 ** 6, US - 1]
@@ -350,7 +350,7 @@ def gen_year(rng, allow_huge=True):
     r = rng.random()
     if r < 0.55:
         y = rng.choice(BOUNDARY_YEARS)
-    elif r < 0.65 and allow_huge:
+    elif r < 0.60 and allow_huge:
         y = rng.choice(TD_EDGE_YEARS)
     elif r < 0.85:
         y = rng.randint(1, 12000)
@@ -447,7 +447,7 @@ def gen_cases(rng, n, quick):
             cases.append({'op': 'adjust', 'cls': ck, 'a': v, 'tz2': rng.choice([None, 0, 840, -840, 330, -300, rng.randint(-840, 840)])})
         else:
             # lexical forms: valid and invalid fields, 24:00:00, year 0
-            y = rng.choice([0, 0, 1, -1, -4, -5, 4, 9999, 10000, -10000, -9999, 10004, gen_year(rng)])
+            y = rng.choice([0, 0, 1, -1, -4, -5, 4, 9999, 10000, -10000, -9999, 10004, 2 ** 31 - 1, -(2 ** 31 - 1), gen_year(rng)])
             if abs(y) >= 2 ** 31:
                 y = y // 2
             mo = rng.choice([0, 1, 2, 2, 12, 12, 13, rng.randint(1, 12)])
@@ -711,6 +711,15 @@ def shrink(d: Disagreement) -> Disagreement:
             return False
     if not fails(case):
         return d
+    def size(c):
+        n = 0
+        for key in ('a', 'b'):
+            if key in c:
+                y, m, dd, us, tz = c[key]
+                n += (m - 1) + (dd - 1) + us.bit_length() + (0 if tz is None else 1 if tz == 0 else 2 + abs(tz))
+        n += abs(c.get('dur', 0)).bit_length() + abs(c.get('months', 0)).bit_length()
+        return n + (1 if c.get('via') == 'xpath' else 0)
+
     cur = dict(case)
     changed = True
     while changed:
@@ -735,7 +744,7 @@ def shrink(d: Disagreement) -> Disagreement:
             cands.append(dict(cur, via='api'))
         for c in cands:
             try:
-                if fails(c):
+                if size(c) < size(cur) and fails(c):
                     cur, changed = c, True
                     break
             except Exception:
